@@ -157,7 +157,7 @@ func (l *Loaded) RunHarness(name string, cfg Config, params map[string]int, work
 	}
 	sh := *l.Sh // copy with per-harness config; sync.Map fields are copied by value but unused concurrently before this point
 	shp := &Shared{Prog: sh.Prog, Cfg: cfg, Intrinsics: sh.Intrinsics, KeepScript: sh.KeepScript, RunInit: sh.RunInit,
-		tmplGlobals: sh.tmplGlobals, KnownActive: sh.KnownActive, InitPkgs: sh.InitPkgs, Module: sh.Module, Params: params, Deadline: deadline}
+		tmplGlobals: sh.tmplGlobals, KnownActive: sh.KnownActive, InitPkgs: sh.InitPkgs, Module: sh.Module, Params: params, Deadline: deadline, Target: l.Pkg}
 	t0 := time.Now()
 	var mu sync.Mutex
 	cond := sync.NewCond(&mu)
